@@ -5,6 +5,7 @@ import GlmVerif.Props.C13.T_qmix
 import GlmVerif.Props.C13.T_qlerp
 import GlmVerif.Props.C13.T_shortMix
 import GlmVerif.Props.C13.T_fastMix
+import GlmVerif.Props.C13.T_dqlerp
 /-! every family table of C13 holds for the model generated from the current /repo -/
 namespace Glm.Props.C13
 open Glm Glm.Spec.C13 Glm.Gen.C13
@@ -15,5 +16,6 @@ theorem all_ok : ∀ f ∈ families, f.ok lookup = true := by
     (Family.ok_congr f_qmix (fun ks => by rw [show f_qmix.unit = "qmix" from rfl, lookup_qmix])).trans qmix_ok,
     (Family.ok_congr f_qlerp (fun ks => by rw [show f_qlerp.unit = "qlerp" from rfl, lookup_qlerp])).trans qlerp_ok,
     (Family.ok_congr f_shortMix (fun ks => by rw [show f_shortMix.unit = "shortMix" from rfl, lookup_shortMix])).trans shortMix_ok,
-    (Family.ok_congr f_fastMix (fun ks => by rw [show f_fastMix.unit = "fastMix" from rfl, lookup_fastMix])).trans fastMix_ok⟩
+    (Family.ok_congr f_fastMix (fun ks => by rw [show f_fastMix.unit = "fastMix" from rfl, lookup_fastMix])).trans fastMix_ok,
+    (Family.ok_congr f_dqlerp (fun ks => by rw [show f_dqlerp.unit = "dqlerp" from rfl, lookup_dqlerp])).trans dqlerp_ok⟩
 end Glm.Props.C13
